@@ -420,6 +420,8 @@ def gen_buffer_case(seed, depth=10):
     rng = random.Random('bufops/%s' % seed)
     hot_rate = rng.choice([2, 3, 5, 10])
     cold_rate = rng.choice([2, 3, 5, 10, 20])
+    if rng.random() < 0.06:
+        cold_rate = -1          # 'real-time' mode: the cold tier is an extension of the hot one
     hot_cap = rng.choice([40, 60, 100])
     cold_cap = rng.choice([30, 60, 100])
     ops = []
@@ -467,7 +469,7 @@ class BufferMachine(object):
         c = case['cfg']
         self.hcap, self.ccap = c['hot']['capacity'], c['cold']['capacity']
         self.hrate, self.crate = c['hot']['max_ingest_rate'], c['cold']['max_data_rate']
-        self.rate = min(self.hrate, self.crate)
+        self.rate = min(self.hrate, self.crate) if self.crate > 0 else float('inf')
         # model
         self.m_hot = []          # names stored in hot
         self.m_cold = []
@@ -681,7 +683,7 @@ class BufferMachine(object):
                 pend = sum(self.objs[s_['obs']].ingest_data_rate * (self.objs[s_['obs']].duration - s_['n'])
                            for r_, s_ in self.streams.items() if not r_.proc.triggered)
                 c2h = [m_ for r_, m_ in self.moves.items() if not r_.proc.triggered and m_['dir'] == 'c2h' and m_.get('size')]
-                owed_exact = sum(max(0, m_['size'] - self.rate * m_.get('n', 0)) for m_ in c2h)
+                owed_exact = sum((m_['size'] if not m_.get('n') else max(0, m_['size'] - self.rate * m_['n'])) for m_ in c2h)
                 owed_all = sum(m_['size'] for m_ in c2h)
                 if k == 'check':
                     rate, dur = op[1], op[2]
@@ -775,7 +777,7 @@ class BufferMachine(object):
                 self.in_op = False
                 left = size
                 nsteps = 0
-                expect_steps = math.ceil(size / self.rate)
+                expect_steps = math.ceil(size / self.rate) if self.rate != float('inf') else (1 if size > 0 else 0)
                 try:
                     p = _start(self, gen)   # first transfer step happens at process start
                     guard = 0
